@@ -164,4 +164,4 @@ Example C15_ex_side_swap_by_theorem :
   bi_patient_lik_spec (swap_sides C15_ex_bi) (bi_joint_spec (swap_sides C15_ex_bi) C15_ex_pm)
                       (swap_bpatient C15_ex_bpatient)
   = bi_patient_lik_spec C15_ex_bi (bi_joint_spec C15_ex_bi C15_ex_pm) C15_ex_bpatient.
-Proof. apply C15_side_swap. reflexivity. Qed.
+Proof. destruct (C15_side_swap C15_ex_bi C15_ex_pm eq_refl) as (_ & _ & H & _). apply H. Qed.
